@@ -665,6 +665,10 @@ fn spawn_async_ao_list_in_task'''),
         ('descriptor-search-starts-at-62', 'brush-core/src/interp.rs', "    let mut candidate_fd_num = 63;", "    let mut candidate_fd_num = 62;"),
         ('descriptor-search-may-return-zero', 'brush-core/src/interp.rs', "        if candidate_fd_num == 0 {\n            return error::unimp(\"no available file descriptors\");\n        }\n    }\n\n    Ok((candidate_fd_num, target_file))", "        if candidate_fd_num < 0 {\n            return error::unimp(\"no available file descriptors\");\n        }\n    }\n\n    Ok((candidate_fd_num, target_file))"),
     ],
+    'U80': [
+        ('first-field-glued-on-before-it-is-made-unsplittable', 'brush-core/src/expansion.rs', [("            for (i, WordField(next_pieces)) in fields_to_append.into_iter().enumerate() {\n                // Flip to unsplittable.\n                let mut next_pieces: Vec<_> = next_pieces\n                    .into_iter()\n                    .map(|piece| piece.make_unsplittable())\n                    .collect();\n\n", "            for (i, WordField(mut next_pieces)) in fields_to_append.into_iter().enumerate() {\n"), ("                    continue;\n                }\n\n                fields.push(WordField(next_pieces));", "                    continue;\n                }\n\n                let next_pieces: Vec<_> = next_pieces\n                    .into_iter()\n                    .map(|piece| piece.make_unsplittable())\n                    .collect();\n\n                fields.push(WordField(next_pieces));")]),
+        ('later-fields-not-made-unsplittable', 'brush-core/src/expansion.rs', "                let mut next_pieces: Vec<_> = next_pieces\n                    .into_iter()\n                    .map(|piece| piece.make_unsplittable())\n                    .collect();\n\n                if i == 0", "                let mut next_pieces: Vec<_> = next_pieces;\n\n                if i == 0"),
+    ],
     'U79': [
         ('first-character-replaced-through-one-byte', 'brush-core/src/variables.rs', "s.replace_range(0..c.len_utf8(), &c.to_uppercase().to_string());", "s.replace_range(0..1, &c.to_uppercase().to_string());"),
     ],
